@@ -56,6 +56,7 @@ let hexval c = match c with
   | _ -> failwith "bad hex"
 
 let bytes_of_hex (s : string) : byte list =
+  let s = if s = "-" then "" else s in
   let n = String.length s in
   if n land 1 = 1 then failwith "odd hex";
   let rec go i acc = if i < 0 then acc else
@@ -87,6 +88,7 @@ let () =
   let ic = match args with f :: _ -> open_in f | [] -> stdin in
   let oc = stdout in
   let w = ref (init_world (n_of_int 1024) None) in
+  let conc_threads = ref [] in
   let dump () =
     let st = !w.w_store in
     let lines = List.map (fun (k, r) ->
@@ -139,6 +141,49 @@ let () =
       | ["O"; l] ->
           do_event (EvOracle (List.map bytes_of_hex (split_on ',' l)))
       | ["D"] -> dump ()
+      | "TH" :: _ :: _ -> conc_threads := !conc_threads @ [line]
+      | ["RUN"; sched] ->
+          (* concurrent window: threads' operations interleaved under the given schedule *)
+          let st = !w.w_store in
+          let now = st.s_now in
+          let parse_op (t : string) : mop =
+            match split_on ':' t with
+            | ["get"; k] -> MBase (OpGet (bytes_of_hex k))
+            | ["set"; k; v; f; ttl; cas] ->
+                MBase (OpSet (bytes_of_hex k, { r_ts = N0; r_cas = n_of_string cas; r_flags = n_of_string f;
+                                                r_ttl = n_of_string ttl; r_val = bytes_of_hex v }))
+            | ["del"; k; cas] -> MBase (OpDel (bytes_of_hex k, n_of_string cas))
+            | ["add"; k; v; f; ttl; cas] ->
+                MAdd (bytes_of_hex k, { r_ts = N0; r_cas = n_of_string cas; r_flags = n_of_string f;
+                                        r_ttl = n_of_string ttl; r_val = bytes_of_hex v })
+            | ["replace"; k; v; f; ttl; cas] ->
+                MReplace (bytes_of_hex k, { r_ts = N0; r_cas = n_of_string cas; r_flags = n_of_string f;
+                                            r_ttl = n_of_string ttl; r_val = bytes_of_hex v })
+            | ["append"; k; cas; v] -> MAppend (bytes_of_hex k, n_of_string cas, bytes_of_hex v)
+            | ["prepend"; k; cas; v] -> MPrepend (bytes_of_hex k, n_of_string cas, bytes_of_hex v)
+            | ["incr"; k; hc; he; d; i] ->
+                MDelta (true, bytes_of_hex k, n_of_string hc, n_of_string he, n_of_string d, n_of_string i)
+            | ["decr"; k; hc; he; d; i] ->
+                MDelta (false, bytes_of_hex k, n_of_string hc, n_of_string he, n_of_string d, n_of_string i)
+            | _ -> failwith ("bad op: " ^ t) in
+          let threads = List.map (fun l ->
+            match split_on ' ' l with
+            | ["TH"; _; ops] -> new_thread (List.map parse_op (split_on '|' ops))
+            | ["TH"; _] -> new_thread []
+            | _ -> failwith "bad TH line") !conc_threads in
+          conc_threads := [];
+          let sched = if sched = "-" then [] else List.map (fun x -> nat_of_int (int_of_string x)) (split_on ',' sched) in
+          let (ts, sh) = run_sched now (mprog_of now) sched threads { sh_mem = st.s_mem; sh_cas = st.s_cas } in
+          let show (r : opres) = match r with
+            | OGetR (ROk r) -> Printf.sprintf "hit:%s:%s:%s" (hex_of_bytes r.r_val) (string_of_n r.r_flags) (string_of_n r.r_cas)
+            | OGetR (RErr e) -> Printf.sprintf "err:%s" (string_of_n (cerr_code e))
+            | OSetR (ROk c) -> Printf.sprintf "ok:%s" (string_of_n c)
+            | OSetR (RErr e) -> Printf.sprintf "err:%s" (string_of_n (cerr_code e))
+            | ODelR (ROk _) -> "ok"
+            | ODelR (RErr e) -> Printf.sprintf "err:%s" (string_of_n (cerr_code e)) in
+          List.iteri (fun i t ->
+            Printf.fprintf oc "TR %d %s\n" i (String.concat ";" (List.map show t.th_done))) ts;
+          w := { !w with w_store = { st with s_mem = sh.sh_mem; s_cas = sh.sh_cas } }
       | [""] | [] -> ()
       | _ -> failwith ("bad trace line: " ^ line)
     done
